@@ -106,7 +106,7 @@ class C12(Prop):
         "dsq_threaded_read_is_database", "open_rejects", "read_written_database", "chunk_ownership_exclusive", "pipe_lock_discipline",
         "codec_chunk_layout", "codec_unpack_smem", "codec_pack_unpack_smem", "dsq_chunks_unpack_in_place", "codec_pack_smem", "pipe_wait_conditions_guarded", "pipe_lane_local", "pipe_recycling_nchunk_local", "pipe_half_lane_local",
         "pipe_variant", "pipe_wait_is_stutter", "pipe_progress_enabled", "pipe_liveness_weak_fairness", "pipe_fair_execution_exists",
-        "pipe_cut_safety", "pipe_cut_never_eof", "pipe_cut_no_deadlock", "pipe_cut_abort_final", "dsq_loader_outcomes", "dsq_cut_data_files", "dsq_cut_files", "dsq_written_passes_nseq_check")]
+        "pipe_cut_safety", "pipe_cut_never_eof", "pipe_cut_no_deadlock", "pipe_cut_abort_final", "dsq_loader_outcomes", "dsq_cut_data_files", "dsq_cut_files", "dsq_written_passes_nseq_check", "dsq_cut_index_never_eof", "dsq_cut_written_index")]
     claimed = True
     level_text = ("Theorems for every schedule of one reader and any number of workers (one atomic step per mutex-protected region, spurious wake-ups allowed): "
                   "conservation and exclusivity of blocks, FIFO on both queues (history variables), counters in range and pendingWorkers = number of sleepers, "
@@ -133,7 +133,7 @@ class C12(Prop):
                   "lane, the recycling stack, nchunk - i.e. it does not read them either); on the code this is checked on observed traces (held-mutex sets, snapshots "
                   "under the mutex equal the model state, digests of parked chunks unchanged). Caller contract of the queue stated as `Admissible`. "
                   "A .dsqi cut short behind its header used to read as a smaller complete database; repaired upstream (78cbf46: the loader checks the header's nseq at end of data), "
-                  "the model follows the repaired loader. Weak fairness is a hypothesis of the liveness theorem (the scheduler is not modelled). "
+                  "the model follows the repaired loader; dsq_cut_index_never_eof: such a read never ends with end of data, for any opened database. Weak fairness is a hypothesis of the liveness theorem (the scheduler is not modelled). "
                   "Not covered: the esl_workqueue_queuelock_* variants (unfinished code); the loader's other exceptions (failing pthread calls, allocation failure).")
     diverge_is_violation = True
     fault_is_output = True      # a sanitizer abort is an output line; it must coincide with the model's `fault`
@@ -156,7 +156,7 @@ class C12(Prop):
                    "allocation never fails; the file system behaves (fwrite/fread transfer the bytes); host is little-endian (checked by the byte-for-byte comparison)",
                    "index offsets fit int64 (sum of packets / metadata bytes < 2^63), sequences shorter than 6*eslDSQDATA_CHUNK_MAXPACKET (the writer's own limit)"]
     rule = ("cases = codec ops on boundary-rich digital sequences (valid and out-of-range codes, malformed packet streams), sequential queue op histories, "
-            "threaded queue runs (1-6 workers, size 1-8, perturbed schedules) whose logged trace must be a path of the model, and write/read-back of "
+            "threaded queue runs (1-6 workers, every size 1-9 incl. the full size x 1-4 workers grid in each run, perturbed schedules) whose logged trace must be a path of the model, and write/read-back of "
             "generated databases with 1-4 unpackers x 1-8 consumers x chunk limits from 1 sequence / the packets of the longest sequence (more consumers than chunks, "
             "empty database, one giant sequence, tail carry-over), in-place pack/unpack buffers at their exact limits, byte-for-byte file comparison and Open on files "
             "with every header byte flipped; each of .dsqi/.dsqm/.dsqs cut at every record / sequence boundary +-1 (forked child, watchdog); one role (loader / unpackers / "
@@ -342,8 +342,10 @@ class C12(Prop):
         # --- sequential queue histories: the generator simulates the abstract queue (two lists + holdings) so that most ops are
         #     meaningful and deep states are reached (several blocks queued on both sides, ring wrap-around, Reset/Remove with
         #     non-trivial contents); about one op in ten is deliberately invalid (foreign block, would-block, overflow)
-        for c in range(150 if quick else 2000):
-            size = rng.choice([1, 2, 3, 4, 5, 8])
+        #     (round 6b) EVERY queue size 1..9 - not only powers of two: the ring index is `% queueSize` - x 1..4 workers, systematically
+        for c in range(180 if quick else 2160):
+            size = c % 9 + 1
+            nW = (c // 9) % 4 + 1
             ops = ["wq create size=%d" % size]
             cap = size + 1 if rng.random() < 0.1 else size      # now and then hand in more blocks than the contract allows
             nb, rq, wq, held = 0, [], [], {}                     # held: block -> thread (0 = reader)
@@ -383,7 +385,7 @@ class C12(Prop):
                         if b: del held[b]; wq.append(b)
                         if wo: held[rq.pop(0)] = 0
                 else:               # a worker
-                    w = rng.randrange(1, 4)
+                    w = rng.randrange(1, nW + 1)
                     mine = [b for b, h in held.items() if h == w]
                     b = rng.choice(mine) if mine and rng.random() < 0.8 else 0
                     wo = 1 if (wq and rng.random() < 0.7) else (0 if valid else 1)
@@ -397,8 +399,8 @@ class C12(Prop):
             stats["wq_seq_ops"] += len(ops)
             out.append({"name": "wqseq%d" % c, "ops": ops, "sticky": 1})
         # --- threaded queue runs
-        for c in range(120 if quick else 1500):
-            size = rng.choice([1, 2, 3, 4, 6, 8])
+        for c in range(90 if quick else 1500):
+            size = rng.randrange(1, 10)
             W = rng.randrange(1, 7)
             B = rng.choice([1, size, rng.randrange(1, size + 1)])
             M = rng.choice([0, 1, 2, 7, 20, rng.randrange(0, 60 if quick else 400)])
@@ -411,6 +413,14 @@ class C12(Prop):
             out.append({"name": "wqrun-small-%d-%d-%d" % (size, W, B), "ops": ["wqrun size=%d workers=%d blocks=%d items=%d seed=%d pert=%d lazy=%d slow=%s" % (
                 size, W, B, rng.randrange(10, 45), rng.randrange(1, 1 << 30), rng.choice([0, 30, 60, 90]), (size + W + B) % 2, "-RW"[(size + W) % 3])]})
             stats["wqrun"] += 1
+        # (round 6b) the full grid, every run: every queue size 1..9 x 1..4 workers, as many blocks as slots (the rings fill up and wrap around
+        # at every modulus), enough items for several laps, the rarely used call modes on
+        for size in range(1, 10):
+            for W in range(1, 5):
+                out.append({"name": "wqrun-grid-%d-%d" % (size, W), "ops": ["wqrun size=%d workers=%d blocks=%d items=%d seed=%d pert=%d lazy=%d slow=%s extra=%d" % (
+                    size, W, rng.choice([size, size, max(1, size - 1)]), 3 * size + 2 * W + rng.randrange(0, 12), rng.randrange(1, 1 << 30), rng.choice([0, 30, 60]),
+                    (size + W) % 2, "-RW"[(size * W) % 3], (size + W) % 3)]})
+                stats["wqrun"] += 1
         # --- start rendezvous
         for c in range(60 if quick else 600):
             out.append({"name": "thrun%d" % c, "ops": ["thrun workers=%d rounds=%d seed=%d pert=%d" % (
